@@ -7,6 +7,8 @@ import copy
 import pickle
 import re
 
+import numpy as np
+
 from . import regworld as rw
 from . import seams
 from .core import EventLog, HarnessError, make_rng, wchoice
@@ -308,6 +310,13 @@ class Gen:
             yield {"k": "unop", "f": r.choice(["sqrt", "square", "pow", "recip"]), "x": ia, "p": 2, "store": True}
             yield {"k": "unop", "f": r.choice(["sqrt", "square", "pow", "recip"]), "x": ib, "p": 2, "store": True}
         ires = w.last_stored
+        if r.random() < 0.5:
+            # the same string target on both (content-equal) registries: each result must live at home
+            st = r.choice([s1, sym, "k" + sym])
+            yield {"k": "to", "x": ia, "s": st, "how": r.choice(["to", "in_units"]), "store": True}
+            yield {"k": "to", "x": ib, "s": st, "how": r.choice(["to", "in_units"]), "store": True}
+            if r.random() < 0.6:
+                ires = w.last_stored
         third = None
         if r.random() < 0.5:
             # a left operand whose registry does not know the symbol: the
@@ -809,7 +818,11 @@ class Sim:
             self.flags["cross_or_restore"] = True
             w.probe("cross_node_call")
         lru_before = seams.lru_stats() if cross or k in ("binop", "unop", "base", "to") else None
+        si_before = {f: si_image(w.operand(op, f)) for f in rw.OPERAND_FIELDS if f in op} \
+            if k in ("to", "to_unit", "base", "binop") else None
         warm, res = rw.run_call(fn, w, op)
+        if si_before is not None and res is not None and "exc" not in warm:
+            self.check_conservation(op, si_before, res)
         if lru_before is not None:
             after = seams.lru_stats()
             if any(after[n][0] > lru_before.get(n, (0, 0, 0))[0] for n in after):
@@ -851,12 +864,75 @@ class Sim:
         # I4: registry of a cross-node result
         if cross and res is not None and k in ("binop", "unitop", "to_unit") and hasattr(res, "units"):
             self.check_cross(op, res)
+        # closure: operands of one registry give a result in that registry
+        if (not cross and len(int_nids) == 1 and res is not None and hasattr(res, "units")
+                and k in ("binop", "unop", "unitop", "to", "base", "quantity", "unit", "usys_get") and "exc" not in warm):
+            nr = w.node_of(res.units.registry)
+            delta = str(res.units.expr) in ("delta_degC", "delta_degF")  # module-level units handed out by degC - degC
+            if nr != int_nids[0] and not (delta and nr == 0) and k != "usys_get":
+                self.violate("cross-registry", ["C13"],
+                             {"op": op, "operands_node": int_nids[0], "result_node": nr, "result_unit": str(res.units.expr),
+                              "note": "every operand lives in one registry, the result is bound to another"},
+                             [k, op.get("f", op.get("how", "")), "left-home"])
         if op.get("store") and res is not None and "exc" not in warm:
             w.store(res)
         if (k, op.get("how")) in rw.INPLACE_TARGET and "exc" not in warm:
             i = self._xslot
             w.heap_meta[i] = rw.unit_snapshot(w.heap[i].units)
         return out
+
+    def check_conservation(self, op, before, res):
+        """The physical quantity is conserved: a conversion returns the same
+        SI value as its input, a sum / difference / product / quotient the
+        sum / ... of the SI values of its operands - with each operand's SI
+        value taken from its OWN unit object (the value it had when it was
+        created), independently of which registries, memo tables or edit
+        histories are involved.  Only for units without offset and outside
+        the logarithmic dimension; computed from data and base_value alone,
+        so it does not share a code path with the conversion being checked."""
+        k = op["k"]
+        out = si_image(res)
+        x = before.get("x")
+        if out is None or x is None:
+            return
+        exp = None
+        if k in ("to", "to_unit", "base"):
+            if op.get("how") in ("to_value", "get_base_equivalent"):
+                return
+            if out[1] != x[1]:
+                return  # cgs <-> mks electromagnetic counterparts: another dimension, base values not comparable
+            exp = x
+        elif k == "binop":
+            y = before.get("y")
+            if y is None:
+                return
+            f = op["f"]
+            with np.errstate(all="ignore"):
+                if f == "add" and x[1] == y[1]:
+                    exp = (x[0] + y[0], x[1])
+                elif f == "sub" and x[1] == y[1]:
+                    exp = (x[0] - y[0], x[1])
+                elif f == "mul":
+                    exp = (x[0] * y[0], None)
+                elif f == "div":
+                    exp = (x[0] / y[0], None)
+        if exp is None:
+            return
+        a, b = np.asarray(out[0], dtype="float64"), np.asarray(exp[0], dtype="float64")
+        if a.shape != b.shape:
+            try:
+                b = np.broadcast_to(b, a.shape)
+            except ValueError:
+                return
+        scale = max(float(np.max(np.abs(b))) if b.size else 0.0,
+                    float(np.max(np.abs(x[0]))) if np.size(x[0]) else 0.0, 1e-300)
+        fin = np.isfinite(a) & np.isfinite(b)
+        self.w.probe("conservation_checked")
+        if fin.any() and float(np.max(np.abs(a[fin] - b[fin]))) > 1e-9 * scale:
+            self.violate("conservation", ["C12", "C13"],
+                         {"op": op, "si_value_of_result": a.ravel().tolist()[:6], "expected_from_operands": b.ravel().tolist()[:6],
+                          "note": "result unit x result numbers is not the physical quantity the operands carry"},
+                         [k, op.get("f", op.get("how", "")), "si"])
 
     def check_cross(self, op, res):
         w = self.w
@@ -1108,6 +1184,25 @@ def simulate(chan, spec):
         "abstract_state": abstract_state(sim),
         "extra": {"sweep_cases_run": 1} if cfg.get("sweep") else {},
     }
+
+
+def si_image(x):
+    """(numbers x base_value, str(dimensions)) of a quantity whose unit has no
+    offset and is not logarithmic, else None."""
+    import numpy as np
+
+    u = getattr(x, "units", None)
+    if u is None or not hasattr(x, "d") or hasattr(x, "is_Unit"):
+        return None
+    try:
+        if float(u.base_offset) != 0.0 or "logarithmic" in str(u.dimensions):
+            return None
+        d = np.asarray(x.d)
+        if d.dtype.kind not in "fiu":
+            return None
+        return (np.array(d, dtype="float64") * float(u.base_value), str(u.dimensions))
+    except Exception:
+        return None
 
 
 def abstract_state(sim):
